@@ -8,10 +8,12 @@ Fields == <<"kind", "ds", "s", "span", "bins", "stat", "missing", "oob", "exact"
 DataW(ds) == CASE ds = 1 -> << <<1, 3, 2>>, <<3, 4, 5>>, <<6, 9, 1>> >>
                [] ds = 2 -> << <<0, 2, 3>>, <<8, 10, 4>> >>
                [] ds = 3 -> << <<2, 8, 7>> >>
+               [] ds = 4 -> << <<0, 2, 0>>, <<2, 3, -2>>, <<3, 4, 2>>, <<6, 8, -1>>, <<8, 9, 1>> >>      \* stored zeros, signed values that cancel
 DataB(ds) == CASE ds = 1 -> << <<1, 6, 1>>, <<2, 4, 2>>, <<2, 4, 3>>, <<8, 9, 4>> >>
                [] ds = 2 -> << <<0, 10, 1>>, <<3, 3, 2>>, <<5, 7, 3>> >>
                [] ds = 3 -> << <<4, 6, 1>> >>
-Dom(f) == CASE f = "kind" -> {"bw", "bb"} [] f = "ds" -> {1, 2, 3}
+               [] ds = 4 -> << <<0, 1, 1>>, <<1, 2, 2>>, <<2, 10, 3>>, <<9, 10, 4>> >>                   \* abutting entries, one reaching the chromosome end
+Dom(f) == CASE f = "kind" -> {"bw", "bb"} [] f = "ds" -> {1, 2, 3, 4}
             [] f = "s" -> (-2)..(LenC - 1) [] f = "span" -> 1..(LenC + 3)
             [] f = "bins" -> 0..(LenC + 3)             \* 0 = per-base output
             [] f = "exact" -> {1, 1, 0}     \* 0: the default mode of values(): bins interpolated from the closest zoom level when one is coarse enough
